@@ -36,9 +36,11 @@ ASSUMPTIONS = [
 ]
 
 TIER = "quick"
-TEXTS_Q = ["#777777", "#8a8a8a", enc((120, 130, 140)), "rgb(200, 30, 30)", "hsl(210, 40%, 45%)", "rgba(0, 0, 0, 0.45)"]
+# (1, 1, 1) and (1.0, 1.0, 1.0) compare (and hash) equal in Python but denote different colours (8-bit ints vs unit floats):
+# a cache keyed on the raw argument confuses them
+TEXTS_Q = ["#777777", "#8a8a8a", enc((1, 1, 1)), enc((1.0, 1.0, 1.0)), "rgb(200, 30, 30)", "hsl(210, 40%, 45%)", "rgba(0, 0, 0, 0.45)"]
 BGS_Q = ["#ffffff", "#fafafa", "#b7439e"]
-TEXTS_T = TEXTS_Q + ["#cfff04", "goldenrod", enc([253, 240, 243]), "#595959"]
+TEXTS_T = TEXTS_Q + ["#cfff04", "goldenrod", enc([253, 240, 243]), "#595959", enc((120, 130, 140)), "rgb(10, 20, 30, 0.6)"]
 BGS_T = BGS_Q + ["#111111", enc((220, 20, 60)), "hsl(60, 80%, 85%)"]
 TABLE = {}
 PROCESS_TRACE = deque(maxlen=800)
@@ -46,6 +48,11 @@ PROCESS_TRACE = deque(maxlen=800)
 
 def pools():
     return (TEXTS_Q, BGS_Q) if TIER == "quick" else (TEXTS_T, BGS_T)
+
+
+def bulk_modes():
+    """bulk steps use the default mode only in the quick tier (keeps the fresh-interpreter table affordable)"""
+    return (1,) if TIER == "quick" else (0, 1, 2)
 
 
 def all_ops():
@@ -59,7 +66,7 @@ def all_ops():
                     for very in (False, True):
                         ops.append({"op": "make", "t": t, "b": b, "large": large, "mode": mode, "very": very})
             for large in (None, False, True):
-                for mode in (0, 1, 2):
+                for mode in bulk_modes():
                     for very in (False, True):
                         ops.append({"op": "bulk", "entries": [{"t": t, "b": b, "large": large}], "mode": mode, "very": very})
     for sheet in c15ops.SHEETS:
@@ -273,6 +280,8 @@ class PurityMachine(RuleBasedStateMachine):
 
     @rule(entries=st.lists(st.fixed_dictionaries({"t": _idx, "b": _idx, "large": st.sampled_from([None, None, False, True])}), min_size=0, max_size=5), mode=_mode, very=st.booleans())
     def bulk(self, entries, mode, very):
+        if mode not in bulk_modes():
+            mode = 1
         self._do({"do": "bulk", "entries": entries, "mode": mode, "very": very})
         texts, bgs = pools()
         for e in entries:
@@ -313,7 +322,7 @@ def _workload():
             w.append({"op": "make", "t": t, "b": b, "large": bool((i + j) % 2), "mode": (i + j) % 3, "very": bool(i % 2)})
             w.append({"op": "readable", "t": t, "b": b, "large": bool(j % 2)})
     w.append({"op": "bulk", "entries": [{"t": texts[0], "b": bgs[0], "large": None}], "mode": 1, "very": False})
-    w.append({"op": "bulk", "entries": [{"t": texts[1], "b": bgs[1], "large": True}], "mode": 0, "very": True})
+    w.append({"op": "bulk", "entries": [{"t": texts[1], "b": bgs[1], "large": True}], "mode": 1, "very": True})
     return w
 
 
